@@ -30,20 +30,26 @@ class HarnessVisitor(BasicVisitor):
         return super().visit(node)
 
 
-def abstract(node, counter, operand_rules=OPERAND_RULES, top=True):
+def abstract(node, counter, operand_rules=OPERAND_RULES, top=True, wrap=None):
     name = node.expr_name
     if name in operand_rules and not top:
         counter[0] += 1
-        return OpaqueNode(node, OpqExp("E%d" % counter[0], is_str=operand_rules[name]))
-    kids = [abstract(c, counter, operand_rules, False) for c in node.children]
+        o = OpqExp("E%d" % counter[0], is_str=operand_rules[name])
+        if wrap == "unary" and not operand_rules[name]:
+            # an operand is an operand whatever class the parser gives it: a unary-operator expression is a BasicOpExp,
+            # which is *not* an AbstractBasicExpression
+            from coco.b09.elements import BasicOpExp
+            o = BasicOpExp("-", o)
+        return OpaqueNode(node, o)
+    kids = [abstract(c, counter, operand_rules, False, wrap) for c in node.children]
     return Node(node.expr, node.full_text, node.start, node.end, kids)
 
 
-def build(rule, sentence, operand_rules=OPERAND_RULES):
+def build(rule, sentence, operand_rules=OPERAND_RULES, wrap=None):
     """Returns (result of the real visitor, number of operands) for one sentence of one rule."""
     tree = grammar[rule].parse(sentence)
     counter = [0]
-    t2 = abstract(tree, counter, operand_rules)
+    t2 = abstract(tree, counter, operand_rules, True, wrap)
     return HarnessVisitor().visit(t2), counter[0]
 
 
